@@ -5,7 +5,7 @@ from oracle_util import *  # noqa
 from protocol import from_real, KEY_IDX
 
 ID = "C09"
-LEAN_MODULE = ["SCoda.Props.C09", "SCoda.Props.Purity", "SCoda.Props.C16b"]
+LEAN_MODULE = ["SCoda.Props.C09", "SCoda.Props.Purity", "SCoda.Props.C16b", "SCoda.Props.Strong589", "SCoda.Props.ElemTie"]
 LEVEL = "proof"
 CLAUSES = [
     ("every track gets the same number of bars (one list per input track, all of one positive length); the loop terminates for positive bar lengths",
@@ -17,6 +17,30 @@ CLAUSES = [
     ("re-quantisation off: a track's bars reproduce its sounding set exactly — proved for tracks without zero-length notes (hypothesis "
      "NoZeroNotes; a zero-length note on a bar line is known finding D18b, replayed on the implementation)", ["SCoda.C09.sound_exact"]),
     ("re-quantisation on: a subset of it (same hypothesis)", ["SCoda.C09.sound_subset"]),
+    ("EXACT finding classes and NOTES (audit A6): re-quantisation off — the sounding clause is refuted in general (D18b witness, model bars = implementation's bars) and proved "
+     "when no zero-length note sits on a bar line, with every hypothesis input-level (positive bar lengths, meta signatures on the grid they induce, `NoZeroOnGrid` over the "
+     "independent grid `gridStart`); the bars' notes are a permutation of the track's notes cut at the bar lines. Re-quantisation on — the subset clause is refuted, and so is "
+     "its narrowing to bar lines (a zero-length note ANYWHERE makes the bars sound where the track is silent: known finding D18c); proved for tracks without zero-length "
+     "notes; what re-quantisation really does, per key and in time order: the bars' notes are the cut fragments, a fragment is dropped only if its duration is not an allowed "
+     "value, every other fragment keeps channel, pitch, velocity and onset, ends no later, has an allowed duration and is unchanged if its duration was allowed already "
+     "('only boundary-cut fragments may shrink' does not describe the code: any fragment of non-allowed length shrinks or goes)",
+     ["SCoda.Strong589.sound_exact_statement_false", "SCoda.Strong589.sound_exact_barlines", "SCoda.Strong589.sound_exact_boundary", "SCoda.Strong589.notes_cut_bars", "SCoda.Strong589.notes_cut_bars_key",
+      "SCoda.Strong589.d18b_bars", "SCoda.Strong589.sound_subset_statement_false", "SCoda.Strong589.sound_subset_boundary_statement_false", "SCoda.Strong589.sound_subset_partial",
+      "SCoda.Strong589.requant_bars_key", "SCoda.Strong589.requant_bars_onsets_kept", "SCoda.Strong589.requant_bars_allowed_unchanged", "SCoda.Strong589.requant_run_key",
+      "SCoda.Strong589.requant_onsets_kept", "SCoda.Strong589.requant_allowed_unchanged", "SCoda.Strong589.requant_no_duplicates", "SCoda.Strong589.requant_all_allowed"]),
+    ("SUCCESS and failure (audit A6b): under input-level conditions (valid meta index, non-negative waits, positive bar lengths, the meta track's signatures on the grid they "
+     "induce and on distinct ticks, side tracks only repeating the signature in force; with re-quantisation also positive note values and well-formed tracks without "
+     "zero-length notes) sequences_split_bars SUCCEEDS; a first bar of capacity 0 with a non-empty track is a BarException (re-quantisation off; with it on, short notes are "
+     "silently dropped instead — refuted statement, replayed), an all-empty input gives one bar, a bad meta index an IndexError",
+     ["SCoda.Strong589.split_bars_succeeds", "SCoda.Strong589.split_bars_succeeds_requant", "SCoda.Strong589.split_bars_spec", "SCoda.Strong589.split_bars_zero_len", "SCoda.Strong589.split_bars_zero_len_at",
+      "SCoda.Strong589.split_bars_all_empty", "SCoda.Strong589.split_bars_bad_meta", "SCoda.Strong589.split_bars_zero_len_requant_statement_false"]),
+    ("signature and key of bar k from an INPUT-ONLY alignment predicate (no bound by the number of bars, changes on the final boundary allowed): the bar's signature is the one in "
+     "force at `gridStart k` on every track; the key is the one in force when key changes come one per bar start; the queue consumes at most ONE change per bar, so two key "
+     "(or time-signature) changes due at one bar start leave the bar with the first (refuted statements, replayed: known finding D23), and the lag is characterised exactly",
+     ["SCoda.Strong589.bar_signature_in", "SCoda.Strong589.bar_key_in", "SCoda.Strong589.bar_sig_partial", "SCoda.Strong589.bar_key_partial", "SCoda.Strong589.bar_key_statement_false",
+      "SCoda.Strong589.bar_sig_statement_false", "SCoda.Strong589.bar_key_lag", "SCoda.Strong589.bar_key_caught_up", "SCoda.Strong589.bar_key_two_changes", "SCoda.Strong589.sigsOf_roll", "SCoda.Strong589.keysOf_roll"]),
+    ("TIE BY TRANSLATION: the Bar constructor every bar goes through is the translated bar.py (ElemTie); sequences_split_bars itself stays tied by correspondence",
+     ["SCoda.ElemTie.barInit_eq", "SCoda.ElemTie.barInit_flags"]),
     ("the input sequences are left unchanged: sequences_split_bars works on private copies and no write site acts on an object that existed "
      "before the call (purity typing over regenerated facts); the bars are fresh (C16b); observed on the real objects by the oracle's `inputs` "
      "clause from five wrapper states",
@@ -35,6 +59,39 @@ def grid_of(piece_tracks):
     ts = sorted([(t, (m[NUM], m[DEN])) for t, m in timed if m[TY] == TIMESIG], key=lambda x: x[0])
     ks = sorted([(t, m[KEY]) for t, m in timed if m[TY] == KEYSIG], key=lambda x: x[0])
     return ts, ks
+
+
+def signatures_on_grid(tracks):
+    """every time-signature change of the meta track (track 0) sits on a bar start of the grid induced by the earlier ones, every other
+    track only repeats the signature in force there, and all bar lengths are positive"""
+    ts, _ = grid_of(tracks)
+    end = max([rel_timed(t)[1] for t in tracks] + [t for t, _ in ts] + [0])
+    start, cur = 0, (4, 4)
+    pending = sorted(ts, key=lambda x: x[0])
+    force = []           # (start, end, sig) per bar
+    for _ in range(400):
+        due = [x for x in pending if x[0] <= start]
+        if any(x[0] < start for x in due):
+            return False
+        if due:
+            cur = due[-1][1]
+            pending = [x for x in pending if x[0] > start]
+        step = 96 * cur[0] // cur[1]
+        if step <= 0 or (96 * cur[0]) % cur[1]:
+            return False
+        if any(start < x[0] < start + step for x in pending):
+            return False
+        force.append((start, start + step, cur))
+        start += step
+        if start > end and not pending:
+            break
+    for t in tracks[1:]:
+        for tick, m in rel_timed(t)[0]:
+            if m[TY] == TIMESIG:
+                bar = [f for f in force if f[0] <= tick < f[1]]
+                if not bar or (m[NUM], m[DEN]) != bar[0][2]:
+                    return False
+    return True
 
 
 def zero_length_on_barline(tracks):
@@ -69,6 +126,9 @@ def o_split_bars(inp):
     try:
         tb = Sequence.sequences_split_bars(seqs, meta_track_index=0, quantise_note_lengths=requant)
     except Exception as e:
+        # hypothesis of the property: signature changes fall on bar boundaries of the grid they induce (a shrunk input may have left it)
+        if not signatures_on_grid(tracks):
+            return [("~skip:not-boundary-aligned", "")]
         return [("raises", f"{type(e).__name__}: {e}")]
     fails = []
     for t, s, st in zip(tracks, seqs, states):
@@ -135,6 +195,35 @@ def o_split_bars(inp):
     return fails
 
 
+def two_changes_in_one_bar(ts, ks):
+    """some bar of the grid (walked with one change per bar, as the implementation does) has two changes of one kind due at its start"""
+    for seq in (ks, ts):
+        ticks = sorted(t for t, _ in seq)
+        if len(ticks) != len(set(ticks)):
+            return True
+    # changes on different ticks but inside one bar are excluded by the property's hypothesis (bar boundaries) for signatures; for keys the
+    # implementation applies a change at the first bar start at or after its tick, one per bar
+    start, cur, pending_k = 0, (4, 4), sorted(ks, key=lambda x: x[0])
+    tsq = sorted(ts, key=lambda x: x[0])
+    for _ in range(200):
+        if tsq and tsq[0][0] <= start:
+            cur = tsq.pop(0)[1]
+        due = [k for k in pending_k if k[0] <= start]
+        if len(due) > 1:
+            return True
+        if due:
+            pending_k.remove(due[0])
+        step = 96 * cur[0] // cur[1]
+        if step <= 0 or not (pending_k or tsq):
+            break
+        start += step
+    return False
+
+
+D18C_EXAMPLE = {"requant": True, "tracks": [[G.pm(WAIT, 0, 10), G.pm(ON, 0, None, note=60, vel=64), G.pm(OFF, 0, None, note=60),
+                                             G.pm(WAIT, 0, 10), G.pm(ON, 0, None, note=60, vel=64), G.pm(WAIT, 0, 10),
+                                             G.pm(OFF, 0, None, note=60), G.pm(WAIT, 0, 100)]]}
+D23_EXAMPLE = {"requant": False, "tracks": [[G.pm(KEYSIG, 0, None, key=0), G.pm(KEYSIG, 0, None, key=7), G.pm(WAIT, 0, 200)]]}
 D18B_EXAMPLE = {"requant": False, "tracks": [[G.pm(WAIT, 0, 96), G.pm(ON, 0, None, note=60, vel=64), G.pm(OFF, 0, None, note=60),
                                                G.pm(WAIT, 0, 10), G.pm(ON, 0, None, note=60, vel=64), G.pm(WAIT, 0, 10),
                                                G.pm(OFF, 0, None, note=60), G.pm(WAIT, 0, 5)]]}
@@ -147,10 +236,27 @@ def setup(ctx):
         return f["clause"] in ("sound-exact", "sound-subset") and zero_length_on_barline([[tuple(m) for m in t] for t in f["input"]["tracks"]])
     ctx.kf_predicates["D18b"] = kf_d18b
 
+    def kf_d18c(f):
+        # re-quantisation on and some track holds a zero-length note (anywhere)
+        ts = [[tuple(m) for m in t] for t in f["input"]["tracks"]]
+        return f["clause"] == "sound-subset" and f["input"]["requant"] and \
+            any(on == off for t in ts for (_, _, on, off, _) in notes_of(rel_timed(t)[0]))
+    ctx.kf_predicates["D18c"] = kf_d18c
+
+    def kf_d23(f):
+        # two key changes (or two time-signature changes) of the meta track are due at one bar start
+        if f["clause"] not in ("bar-key", "bar-sig", "bar-length", "coverage"):
+            return False
+        ts, ks = grid_of([[tuple(m) for m in t] for t in f["input"]["tracks"]])
+        return two_changes_in_one_bar(ts, ks)
+    ctx.kf_predicates["D23"] = kf_d23
+
 
 def generate(ctx):
     rng = ctx.rng
-    ctx.check("split_bars", D18B_EXAMPLE)      # the recorded instance of the known finding
+    ctx.check("split_bars", D18B_EXAMPLE)      # the recorded instances of the known findings
+    ctx.check("split_bars", D18C_EXAMPLE)
+    ctx.check("split_bars", D23_EXAMPLE)
     for i in range(ctx.n(120, 3000)):
         piece = G.gen_piece(rng, key_changes=True, unequal=rng.random() < 0.5, tail_ok=True, values=[6, 12, 24, 36, 48, 96, 5])
         if rng.random() < 0.35:
